@@ -121,7 +121,9 @@ pub fn generate(tier: Tier, rng: &mut Rng) -> Vec<Case> {
     // a macro that fails (bad binder, wrong use of has) inside the argument slot another macro
     // validates: the outer expander sees a placeholder, and must still report a positioned error
     {
-        let bad = ["has(a)", "has(1)", "[2].all(3, true)", "y.filter(1, z)", "[1].map(x.y, 1)", "has(has(a))", "[1].exists_one(1 + 1, true)"];
+        let bad = ["has(a)", "has(1)", "[2].all(3, true)", "y.filter(1, z)", "[1].map(x.y, 1)", "has(has(a))", "[1].exists_one(1 + 1, true)",
+            // arguments that are, or start with, calls without arguments, and other shapes with no first operand
+            "f()", "a.b()", "a.b() + 1", "x.y()", "now()", "[]", "{}", "f()()", "-f()", "f().g", "f()[0]", "T{}", "(f())", "!f()"];
         for b in bad {
             for src in [format!("has({b})"), format!("[1].all({b}, true)"), format!("x.map({b}, 1)"), format!("[].exists({b}, true)"), format!("[1].map(x, {b})"), format!("[1].filter({b}, {b})"), format!("[1].map({b}, {b}, {b})"), format!("{b}.all(x, true)"), format!("'éé' + has({b})")] {
                 push(src, "nested-bad-macro");
@@ -153,6 +155,10 @@ pub fn generate(tier: Tier, rng: &mut Rng) -> Vec<Case> {
             push(format!("{}{leaf}{}", open.repeat(d), close.repeat(d)), "deep-nesting");
             push(format!("{}{leaf}{}", open.repeat(d), close.repeat(d.saturating_sub(1))), "deep-nesting");
         }
+    }
+    // errors located after tabs and other wide or zero-width characters: columns count characters
+    for src in ["\t1 +", "a\t| b", "[1,\n\t2,\n\t)", "\t\t\t)", "x\t\t+\t", "\t'abc", "1 +\t\n\t* 2", "\tx.all(\t1, y)", "\t\thas(\tm)", "\u{feff}1 +", "a\u{200b}b", "\t[1].map(\n\t\t2, 3)"] {
+        push(src.to_string(), "tabs-before-error");
     }
     // white-space-only and comment-only sources of several lines
     for src in ["\n", "\n\n", " \n", "\t\n  \n", "\r\n", " \n \n ", "\n// c", "// c\n", "// c\n\n", "\u{c}\n"] {
